@@ -677,6 +677,26 @@ func (g *encGen) odd(where string) *encOdd {
 	return o
 }
 
+// Two DIFFERENT struct types whose reflect.Type.String() is the same ("simharness.record"):
+// function-local types of the same name, one all public, one all protected.
+func (g *encGen) recordPublic() interface{} {
+	type record struct {
+		A string `class:"public"`
+		B string `class:"public"`
+		C string `class:"public"`
+	}
+	return &record{A: g.canary("keep", "*record(public).A"), B: g.canary("keep", "*record(public).B"), C: g.canary("keep", "*record(public).C")}
+}
+
+func (g *encGen) recordProtected() interface{} {
+	type record struct {
+		A string `class:"secret"`
+		B string `class:"sensitive"`
+		C string
+	}
+	return &record{A: g.canary(g.treatFor("secret", true), "*record(protected).A"), B: g.canary(g.treatFor("sensitive", true), "*record(protected).B"), C: g.canary(g.treatFor("", false), "*record(protected).C")}
+}
+
 // payload builds one top-level payload; kind names the top-level shape.
 func (g *encGen) payload(kind int, depth int) (interface{}, string) {
 	switch kind {
@@ -719,6 +739,10 @@ func (g *encGen) payload(kind int, depth int) (interface{}, string) {
 	case 18:
 		t := g.tagMap("ptagmap")
 		return &t, "*taggable-map"
+	case 20:
+		return g.recordPublic(), "*struct(record,public)"
+	case 21:
+		return g.recordProtected(), "*struct(record,protected)"
 	case 19:
 		return map[string]*string{"a": func() *string { s := g.canary("redact", "map[string]*string{}"); return &s }()}, "map[string]*string"
 	default:
@@ -1101,7 +1125,7 @@ func runEncrypt(rc *RunCtx, prop string) {
 			d := &drawRec{tape: tp}
 			fill := []int{15, 40, 80}[tp.Choose(3, "fill")]
 			g := &encGen{d: d, exp: map[string]*leafExp{}, overrides: overrides, fill: fill, withIgnored: withIgnored}
-			kind := tp.Choose(20, "kind")
+			kind := tp.Choose(22, "kind")
 			depth := tp.Choose(3, "depth")
 			var payload interface{}
 			var top string
